@@ -15,8 +15,9 @@ BUDGET = {
 }
 PALETTE = ["huge_random", "huge_same_sign", "colluding_duplicates", "copy_of_honest_row", "honest_extremes", "zeros", "sign_flip_scaled", "near_honest_mean", "mixed"]
 RULE = (
-    "a run = m<=9 simulated workers producing honest rows (n<=6 columns, scale 1e-3..1e3, float32/float64, "
-    "sometimes with duplicated or tied entries) and one aggregator drawn over ALL admissible parameters "
+    "a run = m<=9 simulated workers (12% of the runs: a federation of 26..34 workers, mostly with near-identical "
+    "gradients = large common component + small noise) producing honest rows (n<=6 resp. <=12 columns, scale "
+    "1e-3..1e3, float32/float64, sometimes with duplicated or tied entries) and one aggregator drawn over ALL admissible parameters "
     "(TrimmedMean b<=(m-1)/2; Krum f<=m-3, k<=m). For that honest matrix the simulator ENUMERATES every "
     "corruption count c=0..b (resp. 0..f) x every kind of the fault palette (values up to 1e12 x honest scale, "
     "same-sign outliers, colluding duplicates, copies of honest rows, per-column honest extremes, zeros, scaled "
@@ -84,23 +85,35 @@ def _corrupt(rng, honest, rows_hit, kind, scale):
     return out
 
 
+def _clustered(rng, m, n, scale):
+    """Many honest workers with near-identical gradients: a large common component plus small noise (the
+    setting the Byzantine-robust aggregators are meant for; distances are tiny relative to the norms)."""
+    offset = [scale * rng.choice([-1, 1]) * rng.uniform(500, 20000) for _ in range(n)]
+    return [[o + scale * rng.gauss(0, 1) for o in offset] for _ in range(m)]
+
+
 def generate(rng, tier, index):
     dtype = "float32" if rng.random() < 0.5 else "float64"
     fam = "TrimmedMean" if index % 2 == 0 else "Krum"
+    big = rng.random() < 0.12  # a federation of 26..34 workers
     if fam == "TrimmedMean":
-        m = rng.randint(1, 9)
-        b = rng.randint(0, (m - 1) // 2)
+        m = rng.randint(26, 34) if big else rng.randint(1, 9)
+        b = rng.randint(0, min(4, (m - 1) // 2)) if big else rng.randint(0, (m - 1) // 2)
         agg = {"kind": "TrimmedMean", "b": b}
         budget = b
     else:
-        m = rng.randint(3, 9)
-        f = rng.randint(0, m - 3)
+        m = rng.randint(26, 34) if big else rng.randint(3, 9)
+        f = rng.randint(0, 4) if big else rng.randint(0, m - 3)
         k = rng.randint(1, m)
         agg = {"kind": "Krum", "f": f, "k": k}
         budget = f
-    n = rng.randint(1, 6)
+    n = rng.randint(1, 6) if not big else rng.randint(2, 12)
     scale = 10 ** rng.uniform(-3, 3)
-    honest = _honest(rng, m, n, scale)
+    if big:
+        dtype = "float32" if rng.random() < 0.75 else "float64"
+        honest = _clustered(rng, m, n, scale) if rng.random() < 0.7 else _honest(rng, m, n, scale)
+    else:
+        honest = _honest(rng, m, n, scale)
     cases = []
     for c in range(0, budget + 1):
         kinds = PALETTE if c >= 1 else ["none"]
@@ -137,6 +150,8 @@ def execute(scn):
             viols.append({"clause": "admissible_matrix_rejected", "step": ci, "details": {"exc": f"{type(e).__name__}: {str(e)[:200]}", "kind": case["kind"], "count": case["count"]}, "key": {}})
             continue
         stats["api_calls"] = stats.get("api_calls", 0) + 1
+        if m > 25:
+            stats["reach.more_than_25_workers"] = stats.get("reach.more_than_25_workers", 0) + 1
         if case["count"] >= 1:
             stats[f"fault.byzantine_{case['kind']}"] = stats.get(f"fault.byzantine_{case['kind']}", 0) + 1
         got = out.detach().to(torch.float64).numpy()
